@@ -69,9 +69,7 @@ def gen_worker(qual):
                     d['smt2_coi'] = backend.to_smt2(ob.formula_coi())
             out['obligations'].append(d)
         if rep.status == 'generated':
-            ex2 = Executor()
-            can = ex2.generate(qual, canary=True)
-            for ob in can.obligations:
+            for ob in (rep.canary or []):
                 out['canary'].append({'id': ob.id, 'smt2': backend.to_smt2(list(ob.pc))})
     except Exception as exc:
         out['status'] = 'error'
@@ -160,11 +158,15 @@ def main(argv=None):
     if spec.get('bind'):
         side['bind'] = start_subprocess([PY_VENV, '-m', 'pyvc.bindcheck', 'contracts.bindings'] + list(spec['bind']))
     standin_out = os.path.join(HERE, 'evidence', '.%s.standin.json' % prop)
-    if spec.get('standin') and not a.no_standin:
-        if os.path.exists(standin_out):
-            os.unlink(standin_out)
-        side['standin'] = start_subprocess([PY_VENV, '-m', 'standins.run', prop, '--tier', tier,
-                                            '--seed', str(a.seed), '--out', standin_out])
+
+    def start_standin():
+        # (started after the generation phase: symbolic execution and the stand-in's process pool
+        # would otherwise oversubscribe the cores)
+        if spec.get('standin') and not a.no_standin:
+            if os.path.exists(standin_out):
+                os.unlink(standin_out)
+            side['standin'] = start_subprocess([PY_VENV, '-m', 'standins.run', prop, '--tier', tier,
+                                                '--seed', str(a.seed), '--out', standin_out])
 
     # --- generate ----------------------------------------------------------------
     funcs = list(spec.get('functions', []))
@@ -174,6 +176,7 @@ def main(argv=None):
     if funcs:
         with ctx.Pool(procs) as pool:
             gens = pool.map(gen_worker, funcs, chunksize=1)
+    start_standin()
     # --- solve ---------------------------------------------------------------------
     jobs = []
     for g in gens:
@@ -264,6 +267,8 @@ def main(argv=None):
     functions_ev = []
     clause_status = {}
     other_prop = [0]
+    needs_q = set()
+    locked_q = set(lock.get(prop, {}).get('needs_quantifiers', []))
     for g in gens:
         fstat = {'name': g['function'], 'status': None, 'obligations': len(g['obligations']),
                  'paths': g.get('paths'), 'gen_s': g['gen_s']}
@@ -300,9 +305,19 @@ def main(argv=None):
             if st == 'unsat':
                 n_dis += 1
                 clause_status.setdefault(ck, True)
+                if 'smt2_light' in ob and not ob['result'].get('variant'):
+                    needs_q.add(ck)
                 if len(samples) < 6 and not ob.get('trivial'):
                     samples.append({'id': ob['id'], 'claim': ob['claim'], 'backend': ob['result']['backend'],
                                     'seconds': round(ob['result']['time'], 3)})
+            elif st == 'sat' and 'modulo quantifier instantiation' in (ob['result'].get('variant') or '') and ck in locked_q:
+                # on the pinned tree this clause was provable only with solver-side quantifier
+                # instantiation; now the quantified form timed out: undecided, not refuted
+                all_ok = False
+                clause_status[ck] = False
+                undecided.append({'function': g['function'], 'obligation': ob['id'],
+                                  'reason': 'quantified form undecided within the budget (the instantiated form alone is '
+                                            'refutable, as it already was on the pinned tree)'})
             elif st == 'sat':
                 all_ok = False
                 clause_status[ck] = False
@@ -450,7 +465,11 @@ def main(argv=None):
         json.dump(ev, f, indent=1, ensure_ascii=False, default=repr)
     if a.write_lock:
         lk = load_lock() or {}
-        lk[prop] = {'clauses': sorted(k for k, v in clause_status.items() if v)}
+        lk[prop] = {'clauses': sorted(k for k, v in clause_status.items() if v),
+                    # clauses some obligation of which was discharged only from the QUANTIFIED assumptions
+                    # (solver-side instantiation): for these, a refutation of the instantiated,
+                    # quantifier-free formula alone is not taken as a refutation
+                    'needs_quantifiers': sorted(needs_q)}
         with open(os.path.join(HERE, 'obligations.lock'), 'w') as f:
             json.dump(lk, f, indent=1, sort_keys=True)
 
